@@ -32,19 +32,23 @@ func (r *verifClockRecorder) Send(b []byte) error {
 // symbolic (any result, any error code - also for notifications).
 func Harness_C01_batch() {
 	verifMapOrders(false)
-	max := 2
-	if thorough() {
-		max = 3
-	}
-	n := 1 + nondetChoice("n", max)
+	n := 1 + nondetChoice("n", 3)
 	batchFlag := n > 1 || nondetBool("array-of-one")
 	outs := make([]*verifOutcome, n)
 	mux := verifMap{}
 	var batch jmessages
 	var ids []json.RawMessage
 	for i := 0; i < n; i++ {
-		o := &verifOutcome{kind: nondetChoice("outcome", 5)}
+		o := &verifOutcome{}
+		if n == 3 && !thorough() {
+			// quick tier: three-member batches mix successful and rejected members only
+			o.kind = 5 * nondetChoice("outcome3", 2)
+		} else {
+			o.kind = nondetChoice("outcome", 6)
+		}
 		switch o.kind {
+		case 5: // unknown method: rejected before dispatch, no handler runs
+			o.code = MethodNotFound
 		case 0:
 			o.result = nondetToken("result")
 			assume(tokKind(o.result) != tkInvalid)
@@ -61,7 +65,10 @@ func Harness_C01_batch() {
 		}
 		outs[i] = o
 		name := "h" + verifItoa(i)
-		mux[name] = func(ctx context.Context, req *Request) (any, error) {
+		if o.kind == 5 {
+			name = "nosuch" + verifItoa(i)
+		}
+		mux["h"+verifItoa(i)] = func(ctx context.Context, req *Request) (any, error) {
 			o.runs++
 			o.enter = vclock()
 			vyield()
@@ -99,7 +106,11 @@ func Harness_C01_batch() {
 
 	ncalls := 0
 	for i, o := range outs {
-		vassert(o.runs == 1, "C01: every well-formed request's handler runs exactly once")
+		if o.kind == 5 {
+			vassert(o.runs == 0, "C01: no handler runs for an unknown method")
+		} else {
+			vassert(o.runs == 1, "C01: every well-formed request's handler runs exactly once")
+		}
 		if ids[i] != nil {
 			ncalls++
 		}
@@ -111,7 +122,9 @@ func Harness_C01_batch() {
 	}
 	vassert(len(rec.sent) == 1, "C01: the responses of one inbound message are sent together as one outbound message")
 	for _, o := range outs {
-		vassert(o.exit < rec.sentAt[0], "C01: the reply is sent only after all of the message's handlers have returned")
+		if o.kind != 5 {
+			vassert(o.exit < rec.sentAt[0], "C01: the reply is sent only after all of the message's handlers have returned")
+		}
 	}
 	out, ok := tokParse(rec.sent[0])
 	vassert(ok, "the reply is valid JSON")
